@@ -42,6 +42,9 @@ def timed_run(v, params, kind, delivery, tk=None):
     if len(v) > 2 and (len(v) * 5 + params[1]) % 7 == 3:
         # a source whose read() delegates to an implementation that is re-pointed after some frames (live phase, then cached phase)
         src = tok.SwitchingSource(frames, 1 + (len(v) + params[0]) % (len(v) - 1))
+    elif len(v) > 1 and (len(v) * 3 + params[0]) % 5 == 2:
+        # a source that is also iterable / indexable for the application's own purposes (with a header read() never returns)
+        src = tok.SequenceSource(frames, frames[:2], legacy=len(v) % 2 == 0)
     else:
         src = tok.CountingSource(frames)
     if tk is None:
@@ -456,11 +459,46 @@ def check_limited_source_not_overread(ctx, case, rng):
         ctx.violation("source-read-beyond-max_read", {"case": AC.case_json(case), "max_read": t, "limit_samples": limit, "samples_handed_out": out})
 
 
+def check_interrupted(ctx, v, params, kind, k, name, mode):
+    """read() call k raises once (Ctrl-C while the source blocks, EINTR, ...).  Whatever the tokenizer does with it, a token
+    reaches the consumer upon its deciding frame or at end of stream: as long as the source has not said None, everything
+    delivered is a token of the whole stream; once it has, the result is that of the whole stream."""
+    delivery = f"{mode}|fault={k}:{name}"
+    case = T.case_of(v, params, kind, delivery)
+    try:
+        whole = tok.spans(tok.run(v, params, kind, "list")[1])
+        frames, tokens, src = tok.run(v, params, kind, delivery)
+    except Exception as exc:
+        ctx.violation("exception:" + type(exc).__name__, {"case": case, "exception": repr(exc)[:200]})
+        return
+    got = tok.spans(tokens)
+    ctx.case(repr(case), bool(got))
+    ctx.count("interrupted_reads")
+    if getattr(src, "fault_propagated", False):
+        ctx.count("interrupted_reads_where_the_exception_reached_the_caller")
+    if src.eos_returns == 0:
+        extra = [t for t in got if t not in whole]
+        if extra:
+            ctx.violation("token-handed-over-without-deciding-frame-or-end-of-stream", {"case": case, "delivered": got, "whole_stream_tokens": whole, "source_said_None": 0})
+    elif got != whole:
+        ctx.violation("tokens-differ-after-a-transient-read-error", {"case": case, "delivered": got, "whole_stream_tokens": whole})
+
+
 def run_shard(ctx):
     import shutil
     import tempfile
 
     conf = TIERS[ctx.tier]
+    rng = ctx.rng("interrupted")
+    for i in range(300 if ctx.tier == "quick" else 20000):
+        params = G.random_params(rng, 6)
+        v = G.structured_random(rng, params, 24)[:24]
+        if not v:
+            continue
+        check_interrupted(ctx, v, params, rng.choice(("char", "tuple", "bytes", "numpy")), rng.randint(1, len(v) + 1),
+                          rng.choice(("KeyboardInterrupt", "KeyboardInterrupt", "OSError-EINTR", "InterruptedError", "TimeoutError")), rng.choice(tok.DELIVERY))
+        if (i & 63) == 0 and ctx.phase_over(0.2):
+            break
     for v, params, kind, delivery, origin in T.iter_cases(ctx, conf, with_reuse=False, with_faults=False):
         check_latency(ctx, v, params, kind, origin)
     # long streams: latency must not grow with length
@@ -505,7 +543,10 @@ def replay(ctx, case):
             shutil.rmtree(tmpdir, ignore_errors=True)
         return
     v, params, kind, delivery = T.parse_case(case)
-    if "cut" in case:
+    if "|fault=" in delivery:
+        k, _, name = delivery.split("|fault=")[1].split("|")[0].partition(":")
+        check_interrupted(ctx, v, params, kind, int(k), name, delivery.split("|")[0])
+    elif "cut" in case:
         check_prefixes(ctx, v, params, kind)
     else:
         check_latency(ctx, v, params, kind, "replay")
@@ -516,4 +557,4 @@ def inconclusive(merged, tier):
     return [f"monitor never observed {k}" for k in
             ("deliveries_timed", "full_length_tokens_timed", "tokens_delivered_at_end_of_stream", "prefix_runs",
              "prefix_flush_tokens", "prefix_flush_tokens_strictly_shorter", "regions_timed_buffer", "regions_timed_raw",
-             "regions_timed_wav", "regions_timed_stdin", "cases_long", "regions_timed_overlap_reader", "cases_one_tokenizer_for_all_modes", "cases_with_a_stale_generator_finalised_mid_run", "cases_generator_requested_before_the_other_modes_ran", "regions_timed_at_validator_raw_path", "regions_timed_at_validator_wav_path_lazy", "limited_sources_checked", "regions_timed_microphone") if c.get(k, 0) == 0]
+             "regions_timed_wav", "regions_timed_stdin", "cases_long", "regions_timed_overlap_reader", "cases_one_tokenizer_for_all_modes", "cases_with_a_stale_generator_finalised_mid_run", "cases_generator_requested_before_the_other_modes_ran", "regions_timed_at_validator_raw_path", "regions_timed_at_validator_wav_path_lazy", "limited_sources_checked", "regions_timed_microphone", "interrupted_reads", "interrupted_reads_where_the_exception_reached_the_caller") if c.get(k, 0) == 0]
